@@ -1173,7 +1173,7 @@ Plan gen_plan(const std::string &property, const std::string &profile, uint64_t 
             int c = avail[rk.below(avail.size())];
             if (g_stacks[c].device)
                 continue;
-            if ((profile == "roundtrip") && dis.io(g_stacks[c]))
+            if ((profile == "roundtrip" || profile == "portability") && dis.io(g_stacks[c]))
                 continue;
             if (std::find(types.begin(), types.end(), c) == types.end())
                 types.push_back(c);
@@ -1181,8 +1181,14 @@ Plan gen_plan(const std::string &property, const std::string &profile, uint64_t 
     };
     if (profile == "conversion")
         pick_family();
-    else if (profile == "portability")
-        pick_norm_group();
+    else if (profile == "portability") {
+        // mostly cross-type groups; the rest same-type runs so that every stack's
+        // dumps meet the format model
+        if (rk.chance(0.6))
+            pick_norm_group();
+        else
+            pick_misc();
+    }
     else if (profile == "roundtrip")
         pick_misc();
     else {
